@@ -1098,8 +1098,10 @@ func (val Value) HasElement(elem Value) Value {
 	}
 	if !ty.ElementType().Equals(elem.Type()) {
 		if elem.Type().HasDynamicTypes() || ty.ElementType().HasDynamicTypes() {
-			// We can't compare types that aren't fully known yet.
-			return unknownResult
+			// We can't compare types that aren't fully known yet, but that
+			// only matters while something is still unknown: between wholly
+			// known values a type that differs is a value that differs.
+			return noMatchResult
 		}
 		// A set can only contain an element of its own element type
 		return False
